@@ -586,6 +586,107 @@ func newState(r *hx.Rng, np int64) *gstate {
 	return g
 }
 
+// nested / overlapping transactions of two or three producers on partition 0 — the outer one starts first and ends
+// last, the inner ones end (abort or commit) in between, in every combination of outcomes — followed by
+// read_committed fetches of one batch at a time (MaxBytes or PartitionMaxBytes of 1) and of two or three batches
+// from EVERY offset of the small log: the aborted index is ordered by marker offset, not by first offset, and a
+// response cut before the inner transaction's first offset must still list the outer one.
+func (g *gstate) nested() {
+	r := g.r
+	n := 2 + r.Intn(2) // producers
+	g.prods = nil
+	for k := int64(0); k < int64(n); k++ {
+		hx.Emit("initx %d %d", k, 203+k)
+		g.prods = append(g.prods, &gprod{k: k, txn: true, inited: true, timeout: 203 + k, parts: map[int64]bool{}, wins: map[int64]*gwin{}})
+	}
+	produce := func(p *gprod) { // one data batch (goodProd may only register the partition the first time)
+		for i := 0; i < 3; i++ {
+			h := g.hwm[0]
+			g.goodProd(p, 0)
+			if g.hwm[0] != h {
+				return
+			}
+		}
+	}
+	end := func(p *gprod, commit bool) {
+		if !p.inTx {
+			return
+		}
+		c := hx.Pick(r, []string{"o", "n"})
+		ci := 0
+		if commit {
+			ci = 1
+		}
+		hx.Emit("end %s %d %d %d", c, p.k, p.epoch, ci)
+		g.endTx(p, commit)
+		if c == "n" {
+			p.epoch++
+		}
+	}
+	plain := func() {
+		if r.Chance(30) {
+			m := r.Range(1, 2)
+			g.emitProd("n", nil, -1, -1, -1, m, 0, 0)
+			g.hwm[0] += m
+		}
+	}
+	// outcomes: the outer transaction aborts in most histories (that is the entry that must not be lost)
+	outerCommit := r.Chance(25)
+	plain()
+	produce(g.prods[0])
+	if r.Chance(40) {
+		produce(g.prods[0])
+	}
+	plain()
+	// inner producers start in order, each writes one or two batches, possibly interleaved with the outer one
+	for k := 1; k < n; k++ {
+		produce(g.prods[k])
+		if r.Chance(35) {
+			produce(g.prods[0])
+		}
+		if r.Chance(35) {
+			produce(g.prods[k])
+		}
+		plain()
+	}
+	// the inner ones end first: nested (last started ends first) or overlapping (first started ends first)
+	order := []int{}
+	for k := 1; k < n; k++ {
+		order = append(order, k)
+	}
+	if r.Chance(50) {
+		for i, j := 0, len(order)-1; i < j; i, j = i+1, j-1 {
+			order[i], order[j] = order[j], order[i]
+		}
+	}
+	for _, k := range order {
+		end(g.prods[k], r.Chance(35))
+		if r.Chance(30) {
+			produce(g.prods[0])
+		}
+		plain()
+	}
+	if r.Chance(20) && n == 3 { // an inner producer runs a second transaction inside the outer one
+		produce(g.prods[1])
+		end(g.prods[1], r.Chance(50))
+	}
+	end(g.prods[0], outerCommit)
+	plain()
+	// every fetch offset of the log, one batch per response, then a few batches per response
+	big := int64(1 << 20)
+	for off := int64(0); off <= g.hwm[0]; off++ {
+		c := hx.Pick(r, []string{"o", "n"})
+		if r.Bool() {
+			hx.Emit("fetch %s 1 1 0 -1 0:%d:%d -", c, off, big)
+		} else {
+			hx.Emit("fetch %s 1 %d 0 -1 0:%d:1 -", c, big, off)
+		}
+		if r.Chance(50) {
+			hx.Emit("fetch %s 1 %d 0 -1 0:%d:%d -", c, hx.Pick(r, []int64{150, 200, 250, 320}), off, hx.Pick(r, []int64{big, big, 180}))
+		}
+	}
+}
+
 // scripted openings that put the log into the states the property talks about
 func (g *gstate) opening(kind int) {
 	r := g.r
@@ -638,8 +739,11 @@ func gen(a hx.Args) {
 		} else {
 			hx.Emit("reset %d", np)
 		}
-		if k := r.Intn(6); k < 2 {
+		switch k := r.Intn(8); {
+		case k < 2:
 			g.opening(k)
+		case k < 4:
+			g.nested()
 		}
 		steps := 12 + r.Intn(30)
 		for i := 0; i < steps; i++ {
